@@ -178,9 +178,6 @@ def _key_name(seq: bytes, encoding: str, keynames: Keynames) -> str:
                 return "x%02X" % ord(seq)
                 # TODO figure out a better thing to return here
             else:
-                raise NotImplementedError(
-                    "are multibyte unnameable sequences possible?"
-                )
                 return "bytes: " + "-".join(
                     "x%02X" % ord(seq[i : i + 1]) for i in range(len(seq))
                 )
